@@ -5,6 +5,7 @@
   translator (Generated.Layout.guardDropOrder).
 -/
 import InjModel.Lemmas.Machine
+import InjModel.Lemmas.Panic
 import InjModel.Generated.Layout
 namespace Inj.Props
 open Inj Inj.Machine Inj.Generated
@@ -69,6 +70,60 @@ theorem C02_latest_wins (mode : Mode) (pre post : List Req) (func fake jit : Nat
     ∃ k c', k ≤ 4 ∧ X86.run sf.mem k c = some c' ∧ c'.rip = fake ∧ SameButRax c c' :=
   latest_wins mode pre post func fake jit s0 sf h hdis hfresh hsep hf hj hk c hc
 
+/-- **Tie to the source (exit paths)**: the body of `Drop::drop` for `InjectorPP` begins with the
+    newest-first restore loop — nothing that can panic (a verifier) or let the lock go runs
+    before or instead of it — and the verifier stays silent while unwinding. -/
+theorem C02_source_exit :
+    Layout.injectorDropBody = Layout.Field.guards :: Layout.injectorDropBody.tail ∧
+    Layout.injectorDropBody.tail.contains Layout.Field.lock = false ∧
+    Layout.verifierChecksPanicking = true := by decide
+
+/-- **Restoration on every kind of scope exit.**  However the scope is left — normally, by
+    unwinding from a panic in the body (`panicking = true`), or with call-count verification
+    raising its own panic on the way out (any pending expectations `verifs`, satisfied or not) —
+    the two-phase release the language prescribes (the `Drop::drop` body as extracted, then the
+    fields in declaration order, a non-empty `Vec<PatchGuard>` dropping oldest first) never
+    aborts and gives back memory, mappings and guards exactly as `C02_restores` states. -/
+theorem C02_any_exit (mode : Mode) (rs : List Req) (s0 sf : MState)
+    (hg : s0.guards = []) (h : installs mode s0 rs = some sf)
+    (hdis : ∀ r ∈ rs, ∀ x, inJit r x → ¬ inSlot r x) (hfresh : FreshMaps s0.maps rs)
+    (verifs : List Panic.Verif) (panicking : Bool) :
+    let e := Panic.scopeExit2 srcDropOrder Layout.verifierChecksPanicking Layout.injectorDropBody
+      Layout.injectorFields ⟨sf, verifs, panicking⟩
+    e.abort = false ∧ (∀ x, (∀ r ∈ rs, ¬ inJit r x) → e.ms.mem x = s0.mem x) ∧
+      e.ms.maps = s0.maps ∧ e.ms.guards = [] := by
+  intro e
+  obtain ⟨hb, hl, hcp⟩ := C02_source_exit
+  have hspec := Panic.scopeExit2_spec srcDropOrder Layout.injectorDropBody.tail Layout.injectorFields
+    ⟨sf, verifs, panicking⟩ hl
+  simp only at hspec
+  have he : e = Panic.scopeExit2 srcDropOrder true (Layout.Field.guards :: Layout.injectorDropBody.tail)
+      Layout.injectorFields ⟨sf, verifs, panicking⟩ := by
+    show Panic.scopeExit2 srcDropOrder Layout.verifierChecksPanicking Layout.injectorDropBody _ _ = _
+    rw [hcp, ← hb]
+  obtain ⟨h1, h2, _, _⟩ := hspec
+  have hrest := C02_restores mode rs s0 sf hg h hdis hfresh
+  simp only at hrest
+  have hra : Panic.restoreAll srcDropOrder sf =
+      { (dropInjector srcDropOrder sf) with log := (Panic.restoreAll srcDropOrder sf).log } := by
+    simp only [Panic.restoreAll, dropInjector, logEv, C02_source_restores_newest_first]
+  rw [he]
+  refine ⟨h1, ?_, ?_, ?_⟩
+  · intro x hx; rw [h2, hra]; exact hrest.1 x hx
+  · rw [h2, hra]; exact hrest.2.1
+  · rw [h2, hra]; exact hrest.2.2.1
+
+/-- the exit-path theorem is about something: with the verifier dropped *before* the restore
+    loop, a pending unmet expectation cuts the body short and the field glue restores oldest
+    first — a function faked twice is then left patched (the model exhibits it) -/
+example :
+    let g1 : Guard := Guard.mk 100 [1] 1 0 0
+    let g2 : Guard := Guard.mk 100 [2] 1 0 0
+    let s : MState := { mem := fun _ => 3, writable := fun _ => true, maps := [], guards := [g1, g2], log := [], fault := false }
+    (Panic.scopeExit2 DropOrder.newestFirst true [Layout.Field.verifiers, Layout.Field.guards]
+      [Layout.Field.guards, Layout.Field.verifiers, Layout.Field.lock] ⟨s, [(1, 0)], false⟩).ms.mem 100 = 2 := by
+  decide
+
 end Inj.Props
 
 #print axioms Inj.Props.C02_latest_wins
@@ -76,3 +131,5 @@ end Inj.Props
 #print axioms Inj.Props.C02_restores
 #print axioms Inj.Props.C02_entry_bytes
 #print axioms Inj.Props.C02_lifetimes
+#print axioms Inj.Props.C02_source_exit
+#print axioms Inj.Props.C02_any_exit
